@@ -997,6 +997,11 @@ def expected_shapes(stmts, order):
     return out
 
 
+def acct_of(stmts):
+    """the account the statement is imported into (the generator notes it on the first statement; default ACCOUNT)"""
+    return stmts[0].get("acct", ACCOUNT) if stmts else ACCOUNT
+
+
 def oracle(stmts, order, ist, txns, proc, closing_cents, ccy):
     if ist != "ok":
         return ["import of a consistent statement failed: %s %s" % (ist, txns)]
@@ -1012,7 +1017,7 @@ def oracle(stmts, order, ist, txns, proc, closing_cents, ccy):
             msgs.append("%s: effective date %s, booking date gives %s" % (where, t["effective"], x["eff"]))
         posts = t["posts"]
         src = posts[0] if not x["neg"] else posts[-1]
-        if src["account"] != ACCOUNT:
+        if src["account"] != acct_of(stmts):
             msgs.append("%s: account posting not %s" % (where, "first" if not x["neg"] else "last"))
             continue
         if src["amount"]["value"] != x["amount"] or src["amount"]["commodity"] != ccy:
@@ -1074,7 +1079,7 @@ def oracle(stmts, order, ist, txns, proc, closing_cents, ccy):
     if proc[0] != "ok":
         msgs.append("consistent statement: the real book-keeping rejects the imported ledger: %s" % (proc,))
     else:
-        got = proc[1].get(ACCOUNT, {}).get(ccy, Fraction(0))
+        got = proc[1].get(acct_of(stmts), {}).get(ccy, Fraction(0))
         if got != Fraction(closing_cents, 100):
             msgs.append("account ends at %s, closing balance is %s" % (got, Fraction(closing_cents, 100)))
     return msgs
@@ -1308,6 +1313,10 @@ def run(chk):
             st2 = make_statement(rng, ccy, stmts[0]["closing_cents"], rng.choice([0, 0, 1, 3]), stmts[0]["entries"][-1]["booking"])
             stmts.append(st2)
         closing = stmts[-1]["closing_cents"]
+        # the account the statement belongs to: short, or so long that name + number come to the column where the printer's minimum
+        # gap decides whether the line reads back (47 = 48 - 1)
+        acct = ACCOUNT if rng.random() < 0.6 else ("Assets:Banks:Okane Kantonalbank:Checking" + "ABCDEF"[:rng.randint(0, 6)])[:rng.randint(38, 46)]
+        stmts[0]["acct"] = acct
         if order == "n2o":
             for st in stmts:
                 st["entries"].reverse()      # the file lists the newest entry first
@@ -1315,7 +1324,7 @@ def run(chk):
         operator = "Okane Bank (fee)"
         prec = rng.random() < 0.6
         yaml = ("path: statement\nencoding: UTF-8\naccount: %s\naccount_type: asset\noperator: %s\ncommodity: %s\n" %
-                (yq(ACCOUNT), yq(operator), ccy))
+                (yq(acct), yq(operator), ccy))
         fmt = []
         if order == "n2o":
             fmt.append("  row_order: new_to_old\n")
@@ -1327,7 +1336,7 @@ def run(chk):
         shuffled = i % 4 == 3
         xml = render_xml(rng, stmts, shuffle=shuffled)
         b0 = D.cents(opening)
-        fund = fund_text(ACCOUNT, (2000, 1, 1), b0.text(), ccy)
+        fund = fund_text(acct, (2000, 1, 1), b0.text(), ccy)
         fund_sx = "(%s %s %s)" % (date_sx((2000, 1, 1)), b0.sx3(), enc(ccy))
         cid = "s%d" % i
         hx_lines.append("%s cfg=%s src=%s fund=%s cmd=1" % (cid, enc(yaml), enc(xml), enc(fund)))
@@ -1338,7 +1347,7 @@ def run(chk):
                 for d in e["details"]:
                     hay.extend(d["info"].values())
         caps = caps_table(rules, hay, TEXT_FIELDS)
-        cfg_sx = "(cfg %s (%s) %s %s)" % (enc(ACCOUNT), enc(operator), order, rules_sx(rules))
+        cfg_sx = "(cfg %s (%s) %s %s)" % (enc(acct), enc(operator), order, rules_sx(rules))
         # the model reads the XML text itself; `stmts=` (what the generator rendered) is only used for the cross-check
         drv_lines.append("%s cfg=%s src=%s caps=%s fund=%s stmts=%s" % (cid, cfg_sx, enc(xml), caps, fund_sx, stmts_sx(stmts)))
         meta.append((stmts, order, yaml, xml, fund, closing, ccy, cfg_sx, caps, fund_sx))
@@ -1374,7 +1383,7 @@ def run(chk):
             cp = run_sharded(HX, ["c18", "books"], ["b fund=%s text=%s" % (enc(fund), enc(ctext))], 1)
             _, cf = split_fields(cp[0])
             cproc = parse_proc_impl(cf.get("proc", "-"))
-            bad = cproc[0] != "ok" or cproc[1].get(ACCOUNT, {}).get(ccy, Fraction(0)) != Fraction(closing, 100)
+            bad = cproc[0] != "ok" or cproc[1].get(acct_of(stmts), {}).get(ccy, Fraction(0)) != Fraction(closing, 100)
             if bad and ist == "ok":
                 chk.oracle_failures += 1
                 chk.violation("Camt053 import breaks C18: the ledger printed by `okane import` for a consistent statement is rejected by okane's "
